@@ -879,6 +879,55 @@ theorem stepOk_observe {env : Env} {si : Impl.State} {ss : Spec.State} (hs : Sim
     simp only [Impl.observe, harr]
     exact ⟨hsim, by rw [hden], hle, px, fun a' ha' => by cases ha'; exact ⟨m, harr, rfl⟩⟩
 
+theorem RepList.getElem? {g : Graph} {b : Nat} :
+    ∀ (cs : List Nat) (es : List Expr) (i : Nat), RepList g b cs es →
+      (∀ c, cs[i]? = some c → ∃ e, es[i]? = some e ∧ Rep g c e) ∧ (cs[i]? = none → es[i]? = none)
+  | [], [], i, _ => ⟨fun c hc => (by simp at hc), fun _ => (by simp)⟩
+  | c :: cs, e :: es, 0, h => by
+    simp only [RepList] at h
+    exact ⟨fun c' hc => (by simp at hc; subst hc; exact ⟨e, by simp, h.2.1⟩), fun hc => (by simp at hc)⟩
+  | c :: cs, e :: es, i + 1, h => by
+    simp only [RepList] at h
+    simpa using RepList.getElem? cs es i h.2.2
+  | [], _ :: _, _, h => by simp only [RepList] at h
+  | _ :: _, [], _, h => by simp only [RepList] at h
+
+theorem child_sim {g : Graph} {n : Nat} {e : Expr} (i : Nat) (h : Rep g n e) :
+    (∀ c, g.child n i = some c → ∃ e', e.child i = some e' ∧ Rep g c e') ∧
+      (g.child n i = none → e.child i = none) := by
+  cases e with
+  | leaf c =>
+    simp only [Rep] at h
+    obtain ⟨k, p, h1, _⟩ := h
+    simp only [Graph.child, h1, Expr.child]
+    exact ⟨fun c hc => (by cases hc), fun _ => (by simp)⟩
+  | bin op a b =>
+    simp only [Rep] at h
+    obtain ⟨l, r, h1, _, _, ha, hb⟩ := h
+    simp only [Graph.child, h1, Expr.child]
+    by_cases h0 : i = 0
+    · simp only [h0, if_true]
+      exact ⟨fun c hc => (by cases hc; exact ⟨a, rfl, ha⟩), fun hc => (by cases hc)⟩
+    · by_cases h1' : i = 1
+      · simp only [h0, h1', if_true, if_false]
+        exact ⟨fun c hc => (by simp at hc; subst hc; exact ⟨b, by simp, hb⟩), fun hc => (by simp at hc)⟩
+      · simp only [h0, h1', if_false]
+        exact ⟨fun c hc => (by cases hc), fun _ => (by simp)⟩
+  | inv a =>
+    simp only [Rep] at h
+    obtain ⟨c, h1, _, ha⟩ := h
+    simp only [Graph.child, h1, Expr.child]
+    by_cases h0 : i = 0
+    · simp only [h0, if_true]
+      exact ⟨fun c' hc => (by cases hc; exact ⟨a, rfl, ha⟩), fun hc => (by cases hc)⟩
+    · simp only [h0, if_false]
+      exact ⟨fun c hc => (by cases hc), fun _ => (by simp)⟩
+  | multiOr es =>
+    simp only [Rep] at h
+    obtain ⟨lst, cs, h1, h2, _, h3⟩ := h
+    simp only [Graph.child, h1, h2, Expr.child]
+    exact RepList.getElem? cs es i h3
+
 theorem step_sim (tbl : ClassTable) (hf : tbl.Faithful) (env : Env) (si : Impl.State)
     (ss : Spec.State) (hs : Sim env si ss) (op : Op) :
     StepOk env si (Impl.step tbl env si op) (Spec.step env ss op) := by
@@ -969,6 +1018,22 @@ theorem step_sim (tbl : ClassTable) (hf : tbl.Faithful) (env : Env) (si : Impl.S
     simp only [Impl.step, Spec.step]
     exact ⟨⟨hs.coh, hs.vars.push hs.cur, hs.cur⟩, rfl, Graph.Le.refl _, ArrExt.refl _,
       fun a ha => by cases ha⟩
+  | child a i =>
+    simp only [Impl.step, Spec.step]
+    cases ha : si.vars[a]? with
+    | none => rw [hs.vars.get_none ha]; exact stepOk_bad hs
+    | some x =>
+      obtain ⟨ea, hea, hra⟩ := hs.vars.get ha
+      rw [hea]
+      dsimp only
+      have hc := child_sim i hra
+      cases hch : si.h.g.child x i with
+      | none => rw [hc.2 hch]; exact stepOk_bad hs
+      | some y =>
+        obtain ⟨e', he', hr'⟩ := hc.1 y hch
+        rw [he']
+        exact ⟨⟨hs.coh, hs.vars.push hr', hs.cur⟩, rfl, Graph.Le.refl _, ArrExt.refl _,
+          fun a ha => by cases ha⟩
 
 theorem init_sim (env : Env) : Sim env Impl.init {} := by
   refine ⟨fun x hx => (by cases hx), ⟨rfl, fun i n e h1 _ => (by simp [Impl.init] at h1)⟩, ?_⟩
@@ -1028,6 +1093,15 @@ theorem Spec.step_vars_prefix (env : Env) (s : Spec.State) (op : Op) :
     cases s.vars[a]? <;> exact ⟨[], by simp⟩
   | evalCur d v => exact ⟨[], by simp [Spec.step]⟩
   | useCur => exact ⟨_, rfl⟩
+  | child a i =>
+    simp only [Spec.step]
+    cases s.vars[a]? with
+    | none => exact ⟨[], by simp⟩
+    | some x =>
+      dsimp only
+      cases x.child i with
+      | none => exact ⟨[], by simp⟩
+      | some y => exact ⟨_, rfl⟩
 
 theorem Spec.run_vars_prefix (env : Env) :
     ∀ (ops : List Op) (s : Spec.State), ∃ ext, (Spec.run env s ops).1.vars = s.vars ++ ext
